@@ -138,18 +138,18 @@ func (c *Ctx) matchKnown(v *Violation) *Finding {
 
 // Report handles a confirmed violation: known findings print KNOWN-FINDING (once per
 // finding), anything else writes a replay file and prints the VIOLATION line.
-func (c *Ctx) Report(v *Violation) {
+func (c *Ctx) Report(v *Violation) bool {
 	if f := c.matchKnown(v); f != nil {
 		c.Known++
 		if !c.reported[f.What] {
 			c.reported[f.What] = true
 			fmt.Printf("KNOWN-FINDING: property=%s %s\n", v.Property, f.What)
 		}
-		return
+		return true
 	}
 	c.Viol++
 	if c.Viol > 20 {
-		return
+		return false
 	}
 	dir := filepath.Join(Root(), "replays")
 	os.MkdirAll(dir, 0o755)
@@ -164,6 +164,7 @@ func (c *Ctx) Report(v *Violation) {
 	if c.Viol <= 3 {
 		fmt.Printf("  signature: %v\n", v.Sig)
 	}
+	return false
 }
 
 // Finish writes the evidence file and returns the process exit code.
